@@ -104,6 +104,28 @@ func runC13(c *rt.Ctx) {
 			run(PoolScenario{Harness: "C13", BatchSize: 1, PoolSize: ps, Prep: p0, Callers: []wire.Op{{Kind: "gat", Key: "c0-h2", TTL: 77}}, MaxCuts: 1, FineCuts: true, Late: true})
 		}
 	}
+	// one-direction cuts: the backend shuts down its sending side only and stops reading; a batch
+	// larger than the socket buffer is then blocked in its write until the pool closes the
+	// connection itself. Every command alone, and a big set beside a second caller.
+	bigSet := wire.Op{Kind: "set", Key: "c0-big", Val: string(wire.GenValue(300, 5)), Flags: 3}
+	for _, ps := range []int{1, 2} {
+		for _, refusals := range []int{0, 2} {
+			item++
+			if c.Mine(item) && !c.Expired() {
+				run(PoolScenario{Harness: "C13", BatchSize: 1, PoolSize: ps, Prep: p0, Callers: []wire.Op{bigSet}, MaxCuts: 1, Refusals: refusals, HalfClose: true, StallBytes: 20, Late: true})
+				run(PoolScenario{Harness: "C13", BatchSize: 2, PoolSize: ps, Prep: p0, Callers: []wire.Op{bigSet, {Kind: "get", Key: "c0-h"}}, MaxCuts: 1, Refusals: refusals, HalfClose: true, StallBytes: 20, Late: true})
+			}
+			for i, a := range c0 {
+				if i%3 != 1 && !c.Thorough() {
+					continue
+				}
+				item++
+				if c.Mine(item) && !c.Expired() {
+					run(PoolScenario{Harness: "C13", BatchSize: 1, PoolSize: ps, Prep: p0, Callers: []wire.Op{a}, MaxCuts: 1, Refusals: refusals, HalfClose: true, StallBytes: 20, Late: true})
+				}
+			}
+		}
+	}
 	// a long outage: the backend refuses enough dials in a row for the reconnect back-off to reach
 	// its cap (and stay there for a few more attempts) before it accepts again
 	for _, ps := range []int{1, 2} {
